@@ -2634,7 +2634,7 @@ def unlift(tree, modname, table=None):
     a = gfn.args
     if a.vararg or a.kwarg or a.posonlyargs or gfn.decorator_list:
       continue
-    gparams = [x.arg for x in a.args]
+    gparams = [x.arg for x in a.args] + [x.arg for x in a.kwonlyargs]
     # all references to g
     refs = [n for n in ast.walk(tree) if isinstance(n, ast.Name) and n.id == gname and isinstance(n.ctx, ast.Load)]
     if not refs or any(any(n is r for r in refs) for n in ast.walk(gfn)):
@@ -2740,6 +2740,9 @@ def unlift(tree, modname, table=None):
     defaults = {newfn.args.args[npar - nd + j].arg: d for j, d in enumerate(newfn.args.defaults)}
     newfn.args.args = [newfn.args.args[i] for i in keep]
     newfn.args.defaults = [defaults[x.arg] for x in newfn.args.args if x.arg in defaults]
+    kwkeep = [i for i, x in enumerate(newfn.args.kwonlyargs) if x.arg in rest]
+    newfn.args.kw_defaults = [newfn.args.kw_defaults[i] for i in kwkeep]
+    newfn.args.kwonlyargs = [newfn.args.kwonlyargs[i] for i in kwkeep]
     sub = _Subst({pn: ast.Name(id=bound[pn], ctx=ast.Load()) for pn in passthrough if bound[pn] != pn}, {})
     newfn.body = [sub.visit(st) for st in newfn.body]
     # rewrite the sites
@@ -2786,6 +2789,130 @@ def unlift(tree, modname, table=None):
     ast.fix_missing_locations(F)
     tree.body.remove(gfn)
     done += 1
+  return done
+
+
+_CM_COUNT = [0]
+
+
+def inline_context_helpers(tree, modname, table=None):
+  """A new module-level @contextlib.contextmanager helper (not in the reference tree) of one of the shapes
+       pre; try: yield E  finally: post        pre; yield E; post        pre; with CTX: yield E
+  is expanded at every `with helper(args) [as X]: BODY`:  pre; try: BODY finally: post  /  pre; BODY; post  /  pre; with CTX: BODY
+  (X replaced by E, or assigned first).  The second shape keeps its meaning: `post` is skipped when BODY raises.
+  Then  L.acquire(); try: BODY finally: L.release()  is written  with L: BODY."""
+  table = table if table is not None else _load_table()
+  ref_mod = (table or {}).get(modname) or {}
+  helpers = {}
+  for st in tree.body:
+    if not isinstance(st, ast.FunctionDef) or '%s.%s' % (modname, st.name) in ref_mod:
+      continue
+    if [ast.unparse(d) for d in st.decorator_list] not in (['contextlib.contextmanager'], ['contextmanager']):
+      continue
+    a = st.args
+    if a.vararg or a.kwarg or a.kwonlyargs or a.posonlyargs:
+      continue
+    body = list(st.body)
+    if body and isinstance(body[0], ast.Expr) and isinstance(body[0].value, ast.Constant) and isinstance(body[0].value.value, str):
+      body = body[1:]
+    ys = [n for n in ast.walk(st) if isinstance(n, (ast.Yield, ast.YieldFrom))]
+    if len(ys) != 1 or not isinstance(ys[0], ast.Yield) or any(isinstance(n, (ast.Return,) + FN + (ast.Lambda,)) for x in body for n in ast.walk(x)):
+      continue
+
+    def is_yield(x):
+      return isinstance(x, ast.Expr) and x.value is ys[0]
+    shape = None
+    for i, x in enumerate(body):
+      if is_yield(x):
+        shape = ('B', body[:i], body[i + 1:], None)
+      elif isinstance(x, ast.Try) and not x.handlers and not x.orelse and len(x.body) == 1 and is_yield(x.body[0]) and i == len(body) - 1:
+        shape = ('A', body[:i], x.finalbody, None)
+      elif isinstance(x, ast.With) and len(x.body) == 1 and is_yield(x.body[0]) and i == len(body) - 1:
+        shape = ('C', body[:i], [], x.items)
+      if shape:
+        break
+    if shape is None:
+      continue
+    if any(n is ys[0] for part in (shape[1], shape[2]) for x in part for n in ast.walk(x)):
+      continue
+    helpers[st.name] = (st, shape, ys[0].value)
+  if not helpers:
+    return 0
+  done = 0
+  for fn in [n for n in ast.walk(tree) if isinstance(n, FN) and n.name not in helpers]:
+    for _o, _f, lst in list(_bodies(fn)):
+      i = 0
+      while i < len(lst):
+        w = lst[i]
+        i += 1
+        if not (isinstance(w, ast.With) and len(w.items) == 1 and isinstance(w.items[0].context_expr, ast.Call)
+                and isinstance(w.items[0].context_expr.func, ast.Name) and w.items[0].context_expr.func.id in helpers):
+          continue
+        call = w.items[0].context_expr
+        hfn, (kind, pre, post, items), yv = helpers[call.func.id]
+        params = [x.arg for x in hfn.args.args]
+        if any(isinstance(x, ast.Starred) for x in call.args) or any(k.arg is None or k.arg not in params for k in call.keywords) or len(call.args) > len(params):
+          continue
+        bound = dict(zip(params, call.args))
+        bound.update({k.arg: k.value for k in call.keywords})
+        nd = len(hfn.args.defaults)
+        for j, d in enumerate(hfn.args.defaults):
+          bound.setdefault(params[len(params) - nd + j], d)
+        if set(bound) != set(params) or not all(isinstance(v, (ast.Name, ast.Constant, ast.Attribute)) for v in bound.values()):
+          continue
+        X = w.items[0].optional_vars
+        if X is not None and not isinstance(X, ast.Name):
+          continue
+        _CM_COUNT[0] += 1
+        stored = _names_stored(ast.Module(body=pre + post, type_ignores=[])) - set(params)
+        if stored & set(params):
+          continue
+        sub = _Subst(bound, {n: '%s__cm%d' % (n, _CM_COUNT[0]) for n in stored})
+        pre2 = [sub.visit(copy.deepcopy(x)) for x in pre]
+        post2 = [sub.visit(copy.deepcopy(x)) for x in post]
+        items2 = [sub.visit(copy.deepcopy(x)) for x in (items or [])]
+        E = sub.visit(copy.deepcopy(yv)) if yv is not None else ast.Constant(value=None)
+        inner = list(w.body)
+        if X is not None:
+          used_outside = any(isinstance(n, ast.Name) and n.id == X.id and not any(n is m for m in ast.walk(w)) for n in ast.walk(fn))
+          restored = X.id in _names_stored(ast.Module(body=inner, type_ignores=[]))
+          if isinstance(E, (ast.Name, ast.Constant)) and not used_outside and not restored and not (isinstance(E, ast.Name) and E.id in sub.renames.values()):
+            rn = _Subst({X.id: E}, {})
+            inner = [rn.visit(x) for x in inner]
+          else:
+            inner = [ast.Assign(targets=[ast.Name(id=X.id, ctx=ast.Store())], value=E, lineno=w.lineno, col_offset=w.col_offset)] + inner
+        if kind == 'A':
+          new = pre2 + [ast.Try(body=inner, handlers=[], orelse=[], finalbody=post2)]
+        elif kind == 'B':
+          new = pre2 + inner + post2
+        else:
+          new = pre2 + [ast.With(items=items2, body=inner)]
+        for x in new:
+          ast.copy_location(x, w)
+          ast.fix_missing_locations(x)
+        lst[i - 1:i] = new
+        i = i - 1 + len(new)
+        done += 1
+  if done:
+    for name, (hfn, _s, _y) in helpers.items():
+      if not any(isinstance(n, ast.Name) and n.id == name for n in ast.walk(tree)):
+        tree.body.remove(hfn)
+  # L.acquire(); try: BODY finally: L.release()   ->   with L: BODY
+  for _o, _f, lst in list(_bodies(tree)):
+    i = 0
+    while i + 1 < len(lst):
+      a, t = lst[i], lst[i + 1]
+      i += 1
+      if isinstance(a, ast.Expr) and isinstance(a.value, ast.Call) and isinstance(a.value.func, ast.Attribute) and a.value.func.attr == 'acquire' \
+          and not a.value.args and not a.value.keywords and isinstance(t, ast.Try) and not t.handlers and not t.orelse and len(t.finalbody) == 1:
+        r = t.finalbody[0]
+        if isinstance(r, ast.Expr) and isinstance(r.value, ast.Call) and isinstance(r.value.func, ast.Attribute) and r.value.func.attr == 'release' \
+            and not r.value.args and ast.unparse(r.value.func.value) == ast.unparse(a.value.func.value):
+          wn = ast.With(items=[ast.withitem(context_expr=a.value.func.value, optional_vars=None)], body=t.body)
+          ast.copy_location(wn, a)
+          ast.fix_missing_locations(wn)
+          lst[i - 1:i + 1] = [wn]
+          done += 1
   return done
 
 
@@ -3332,9 +3459,13 @@ def inline_module_constants(tree, modname):
       par = parents.get(id(n))
       if immutable and not any(isinstance(x, (ast.List, ast.Dict, ast.Set)) for x in ast.walk(val)):
         continue
-      if isinstance(par, ast.Subscript) and par.value is n and isinstance(par.ctx, ast.Load):
-        continue
       if isinstance(par, ast.Compare) and n in par.comparators and all(isinstance(o, (ast.In, ast.NotIn)) for o in par.ops):
+        continue
+      if any(isinstance(x, (ast.List, ast.Dict, ast.Set, ast.ListComp, ast.DictComp, ast.SetComp)) for x in ast.walk(val) if x is not val):
+        # the elements are objects with an identity that every reader shares: a display at the use site would make them fresh
+        ok = False
+        break
+      if isinstance(par, ast.Subscript) and par.value is n and isinstance(par.ctx, ast.Load):
         continue
       if isinstance(par, (ast.For, ast.comprehension)) and par.iter is n:
         continue
@@ -4291,6 +4422,7 @@ def normalize(tree, modname):
   a += restore_attribute_names(tree, modname)
   a += call_spelling(tree, modname)
   a += restore_function_names(tree, modname)
+  a += inline_context_helpers(tree, modname)
   a += collect_generators(tree, modname)
   a += inline_package_methods(tree, modname)
   a += inline_expression_helpers(tree, modname)
